@@ -2484,12 +2484,12 @@ func (data *Data) CreateShardGroup(database, policy string, timestamp time.Time,
 		return errno.NewError(errno.NoMstInDb, database, policy)
 	}
 
-	//check index group contain this shard group
-	ptNum := data.GetClusterPtNum()
-	igi := data.createIndexGroupIfNeeded(rpi, timestamp, engineType, ptNum)
-
 	// Create the shard group.
 	sgi := data.newShardGroup(rpi, timestamp, engineType, version)
+
+	//check index group contain this shard group
+	ptNum := data.GetClusterPtNum()
+	igi := data.createIndexGroupCovering(rpi, timestamp, sgi.EndTime, engineType, ptNum)
 
 	// Create shards on the group.
 	data.createShards(database, sgi, igi, rpi, msti, tier)
@@ -2509,11 +2509,20 @@ func (data *Data) CreateShardGroup(database, policy string, timestamp time.Time,
 }
 
 func (data *Data) CreateIndexGroup(rpi *RetentionPolicyInfo, timestamp time.Time, engineType config.EngineType, ptNum uint32) *IndexGroupInfo {
+	return data.createIndexGroupUntil(rpi, timestamp, timestamp, engineType, ptNum)
+}
+
+// createIndexGroupUntil creates the index group for timestamp. The group never ends before minEnd (the end of the
+// shard group it is created for): an index must not expire before a shard that uses it.
+func (data *Data) createIndexGroupUntil(rpi *RetentionPolicyInfo, timestamp, minEnd time.Time, engineType config.EngineType, ptNum uint32) *IndexGroupInfo {
 	data.MaxIndexGroupID++
 	igi := IndexGroupInfo{}
 	igi.ID = data.MaxIndexGroupID
 	igi.StartTime = timestamp.Truncate(rpi.IndexGroupDuration).UTC()
 	igi.EndTime = igi.StartTime.Add(rpi.IndexGroupDuration).UTC()
+	if igi.EndTime.Before(minEnd) {
+		igi.EndTime = minEnd.UTC()
+	}
 	if igi.EndTime.After(time.Unix(0, models.MaxNanoTime)) {
 		igi.EndTime = time.Unix(0, models.MaxNanoTime+1)
 	}
@@ -2529,20 +2538,28 @@ func (data *Data) CreateIndexGroup(rpi *RetentionPolicyInfo, timestamp time.Time
 }
 
 func (data *Data) createIndexGroupIfNeeded(rpi *RetentionPolicyInfo, timestamp time.Time, engineType config.EngineType, ptNum uint32) *IndexGroupInfo {
+	return data.createIndexGroupCovering(rpi, timestamp, timestamp, engineType, ptNum)
+}
+
+// createIndexGroupCovering returns the index group serving a shard group that contains timestamp and ends at sgEnd.
+// Only an index group that ends no earlier than the shard group is reused: after ALTER ... SHARD DURATION a new shard
+// group may be longer than the existing index groups, and an index that expires before its shard loses the shard's series.
+func (data *Data) createIndexGroupCovering(rpi *RetentionPolicyInfo, timestamp, sgEnd time.Time, engineType config.EngineType, ptNum uint32) *IndexGroupInfo {
 	if len(rpi.IndexGroups) == 0 {
-		return data.CreateIndexGroup(rpi, timestamp, engineType, ptNum)
+		return data.createIndexGroupUntil(rpi, timestamp, sgEnd, engineType, ptNum)
 	}
 
 	var igIdx int
 	for igIdx = len(rpi.IndexGroups) - 1; igIdx >= 0; igIdx-- {
-		if rpi.IndexGroups[igIdx].EngineType == engineType && rpi.IndexGroups[igIdx].Contains(timestamp) {
+		if rpi.IndexGroups[igIdx].EngineType == engineType && rpi.IndexGroups[igIdx].Contains(timestamp) &&
+			!rpi.IndexGroups[igIdx].EndTime.Before(sgEnd) {
 			break
 		}
 	}
 	if igIdx >= 0 && len(rpi.IndexGroups[igIdx].Indexes) >= int(ptNum) {
 		return &rpi.IndexGroups[igIdx]
 	}
-	return data.CreateIndexGroup(rpi, timestamp, engineType, ptNum)
+	return data.createIndexGroupUntil(rpi, timestamp, sgEnd, engineType, ptNum)
 }
 
 func (data *Data) expandDBPtView(database string, ptNum uint32, newNode *DataNode) {
@@ -2593,7 +2610,7 @@ func (data *Data) ExpandGroups() {
 
 			rp.WalkShardGroups(func(sg *ShardGroupInfo) {
 				for i := len(sg.Shards); i < int(ptNum); i++ {
-					igi := data.createIndexGroupIfNeeded(rp, sg.StartTime, sg.EngineType, ptNum)
+					igi := data.createIndexGroupCovering(rp, sg.StartTime, sg.EndTime, sg.EngineType, ptNum)
 					data.MaxShardID++
 					sg.Shards = append(sg.Shards, ShardInfo{ID: data.MaxShardID, Owners: []uint32{uint32(i)}, IndexID: igi.Indexes[i].ID, Tier: sg.Shards[i-1].Tier})
 				}
